@@ -44,7 +44,7 @@ Fixpoint c01_flow_steps (k : c01case) (first : bool) (old : amap ev_sol) (steps 
   | st :: r =>
       let new := map (fun p : attr * list nat => (fst p, map (c01_get k) (snd p))) (snd st) in
       let afters := map (fun b : c01batch => map (c01_get k) (snd b)) (fst st) in
-      shape_ok ev_sol ev_sol_eqb (if first then init_rules (k_alg k) else iter_rules (k_alg k)) old new afters
+      shape_ok ev_sol ev_sol_eqb sid (if first then init_rules (k_alg k) else iter_rules (k_alg k)) old new afters
       && c01_flow_steps k false new r
   end.
 Definition c01_flow_check (k : c01case) : bool := c01_flow_steps k true [] (k_steps k).
